@@ -221,7 +221,10 @@ Proof.
   assert (Hex2 : forall d, exists_b (set_db w d) t = true) by (intro d; exact Hex).
   destruct (r_gen sf) eqn:G; destruct (r_ovr sf) eqn:O; cbn [andb orb negb].
   - (* generated, already overridden *)
-    rewrite Hex2. cbn [andb orb]. rewrite O. cbn [orb]. eexists _, _. split; reflexivity.
+    rewrite Hex2. cbn [andb orb].
+    destruct (ostamp_eqb (r_stamp sf) (read_stamp w t)).
+    + rewrite O. cbn [orb]. eexists _, _. split; reflexivity.
+    + cbn [r_ovr upd_row]. cbn [orb]. eexists _, _. split; reflexivity.
   - (* generated, stamp differs now: becomes overridden *)
     assert (Ho : match r_stamp sf with Some s => detect_override s (read_stamp w t) | None => true end = true).
     { destruct H as [H|[H|H]]; try discriminate. destruct (r_stamp sf); [exact H|reflexivity]. }
